@@ -491,6 +491,10 @@ func (tw *twin) imgBefore(step int, sc *Scenario) db.KeyValueStore {
 func (r *runner) runScenario(build func() *Scenario) {
 	r.sem <- struct{}{}
 	sc := build()
+	if sc == nil {
+		<-r.sem
+		return
+	}
 	tw, ok := r.runTwin(sc)
 	tw.trace.compare(r, sc, map[string]any{"fault": "none"})
 	if ok && r.onlyK == 0 {
